@@ -25,8 +25,8 @@ func (o *Obligation) smt(withModel bool) string {
 	}
 	b.WriteString("(assert (not " + o.Goal.S + "))\n(check-sat)\n")
 	if withModel {
-		if len(fx.inputConsts) > 0 {
-			b.WriteString("(get-value (" + strings.Join(fx.inputConsts, " ") + "))\n")
+		if ts := fx.allGetValueTerms(); len(ts) > 0 {
+			b.WriteString("(get-value (" + strings.Join(ts, " ") + "))\n")
 		}
 	}
 	return b.String()
